@@ -17,7 +17,7 @@ RUNMOD = "RunC04a"
 SUSPECT = []
 
 # opcode classes (operands: a = src1, b = src2, c = src3)
-BIN2 = [1, 2, 4, 5, 7, 8, 9, 10, 12, 40, 41, 42, 110, 113, 114]   # a, b
+BIN2 = [1, 2, 4, 5, 7, 8, 9, 10, 12, 40, 41, 42, 110, 113, 114, 121, 122, 123, 130, 131, 134, 135, 136]   # a, b
 UN1 = [3, 6, 11, 43, 45, 47, 74, 75, 76, 77, 104]                  # a
 SHIFT = [20, 21, 22, 23, 24, 25, 26, 27, 28, 29]                   # a, amount
 SHIFTU = [30, 31]                                                  # a, b
@@ -25,7 +25,7 @@ CONST = [100, 101, 102, 103]
 MOD3 = [115, 116, 117]                                             # a, b, c
 ALL = (BIN2 + UN1 + SHIFT + SHIFTU + CONST + MOD3 +
        [44, 46, 50, 51, 52, 53, 54, 55, 56, 57, 58, 59, 60, 61, 62, 63, 70, 71, 72, 73, 80, 81, 82, 83,
-        90, 91, 92, 93, 94, 95, 111, 112, 118, 119])
+        90, 91, 92, 93, 94, 95, 111, 112, 118, 119, 120, 124, 125, 126, 127, 128, 129, 132, 133])
 
 
 def unit(bits):
@@ -42,8 +42,14 @@ def pow_bits(bits, per_mul):
 
 def cost(op, bits):
     u = unit(bits)
-    if op in (111, 112, 115, 116):
+    if op in (111, 112, 115, 116, 124, 125, 126, 127, 128, 130, 132):
         return u
+    if op in (120, 129):           # modular inverse: one wide division (the other operand is kept short)
+        return u + 0.02
+    if op in (134, 135, 136):
+        return 0.1
+    if op == 133:
+        return 14 * u
     if op == 117:
         return 0.12 + u
     if op == 113:
@@ -151,7 +157,7 @@ def safe_ins(rng, bits, nregs, wild, budget=None, todo=None):
                 op = rng.choice(BIN2[:12])
         budget[0] -= cost(op, bits)
     if op in BIN2:
-        if op == 113 and bits > 0:
+        if op in (113, 134, 135, 136) and bits > 0:
             # wrapping_pow: keep the exponent short at large widths (the spec squares per exponent bit)
             e = R()
             eb = pow_bits(bits, 3 * 0.002 * (bits / 536.0) ** 2)
@@ -266,14 +272,48 @@ def safe_ins(rng, bits, nregs, wild, budget=None, todo=None):
         if wild and rng.random() < 0.1:
             v |= 1 << 40
         return ins(op, d, imm=[v])
-    if op in (111, 112):                           # division: make the divisor odd first
+    if op in (111, 112, 124, 125, 126, 127, 128, 132):   # division: make the divisor odd first
         b = R()
-        if wild or bits == 0:
+        if wild or bits == 0 or (op in (125, 126, 128, 132) and rng.random() < 0.2):
             return ins(op, d, R(), b)
+        if op == 127 and bits >= 2:                # next_multiple_of: keep the result in range
+            a = R()
+            while a == b and nregs > 1:
+                a = R()
+            if a == b:
+                return ins(op, d, a, b)
+            return (ins(26, a, a, imm=[rng.randrange(1, bits)]) + ins(26, b, b, imm=[rng.randrange(1, bits)]) +
+                    ins(44, b, b, imm=[0, 1]) + ins(op, d, a, b))
         pre = ins(44, b, b, imm=[0, 1])
         if rng.random() < 0.5:
             pre += ins(26, b, b, imm=[rng.randrange(bits)]) + ins(44, b, b, imm=[0, 1])
         return pre + ins(op, d, R(), b)
+    if op == 120:                                  # inv_ring: mostly of a short odd value (cheap for the spec)
+        a = R()
+        if wild and bits <= 128:
+            return ins(op, d, a)
+        v = (C.rand_limb(rng) | 1) if rng.random() < 0.85 else C.rand_limb(rng)
+        return ins(52, a, imm=[v]) + ins(op, d, a)
+    if op == 129:                                  # inv_mod: short modulus
+        a, b = R(), R()
+        if wild and bits <= 128:
+            return ins(op, d, a, b)
+        mod = rng.choice([C.rand_limb(rng), C.rand_limb(rng) | 1, 0, 1, 2, rng.getrandbits(16) | 1])
+        return ins(52, b, imm=[mod]) + ins(op, d, a, b)
+    if op == 133:                                  # square_redc, as mul_redc
+        if bits == 0 or (wild and rng.random() < 0.5):
+            return ins(op, d, R(), 0, R(), imm=[C.rand_limb(rng)])
+        mod = C.rand_value(rng, bits) | 1
+        if rng.random() < 0.5:
+            mod = ((m - 1) - ((m - 1 - mod) >> rng.randrange(bits))) | 1
+        mod %= m
+        inv = (-pow(mod % C.B64, -1, C.B64)) % C.B64
+        regs = list(range(nregs))
+        rng.shuffle(regs)
+        mr, a = regs[0], regs[1 % nregs]
+        if a == mr:
+            return ins(60, mr, imm=C.to_limbs(mod, n)) + ins(112, d, mr, mr) + ins(op, d, d, 0, mr, imm=[inv])
+        return ins(60, mr, imm=C.to_limbs(mod, n)) + ins(112, a, a, mr) + ins(op, d, a, 0, mr, imm=[inv])
     if op == 118:
         deg = rng.choice([1, 2, 3, 5, 7, max(bits - 1, 1), bits, bits + 1, 64, rng.randrange(1, bits + 3), C.B64 - 1])
         if bits > 512 and not wild:
@@ -343,7 +383,7 @@ def corpus():
 
 def gen(rng, tier):
     widths = C.WIDTHS_QUICK if tier == "quick" else C.WIDTHS_QUICK + C.WIDTHS_MORE
-    reps = 70 if tier == "quick" else 400
+    reps = 56 if tier == "quick" else 400
     out = []
     for bits in widths:
         k = reps if bits <= 256 else (reps // 2 if bits <= 600 else max(reps // 5, 8))
